@@ -271,7 +271,9 @@ def cases(draw, max_depth=2):
         if which in ("main_reg", "register_multiplier"):
             decoys = draw(st.lists(st.sampled_from(["rsp", "%rbp", "rb", "rbx", "%rax", "rax", "r8", "%r8d", "rip"]), max_size=2))
         else:
-            decoys = draw(st.lists(st.sampled_from(["0x8", "8", "1", "10", "0x10", "4", "0x0", "0x18"]), max_size=2))
+            decoys = draw(st.lists(st.sampled_from(["0x8", "8", "1", "10", "0x10", "4", "0x0", "0x18", "-8", "-0x10", "-1"]), max_size=2))
+            if str(good).startswith("-0x") and draw(st.booleans()):
+                good = "-" + str(good)[3:]  # a negative constant may be written without 0x inside an alternative as well
         alts = list(decoys)
         alts.insert(draw(st.integers(0, len(alts))), good)
         fields[which] = [{"$or": alts}]
